@@ -347,6 +347,7 @@ class RTL(keras.layers.Layer):
               kernel_initializer=kernel_initializer,
               kernel_regularizer=kernel_regularizer,
               name=layer_name,
+              dtype=self.dtype,
           )
         elif self.parameterization == 'kronecker_factored':
           layer_name = '{}_{}'.format(RTL_KFL_NAME, monotonicities_str)
@@ -368,7 +369,8 @@ class RTL(keras.layers.Layer):
                   clip_inputs=self.clip_inputs,
                   kernel_initializer=kernel_initializer,
                   scale_initializer='scale_initializer',
-                  name=layer_name)
+                  name=layer_name,
+                  dtype=self.dtype)
         else:
           raise ValueError('Unknown type of parameterization: {}'.format(
               self.parameterization))
